@@ -668,7 +668,7 @@ def malformed_step(sh):
         a = sh.mk(b, 'A', sh.pick_new_name(b, 'A', 0.0), 't', 'Double 1 3')
         if rnd.random() < 0.5:
             sh.emit('dim %d frame %d %d' % (a, d, rnd.choice([0, 1])))
-        sh.emit('dim %d frame %d %d' % (a, d, rnd.choice([3, 4, 9])), 'dim-column-index')
+        sh.emit('dim %d frame %d %d' % (a, d, rnd.choice([2, 2, 3, 9])), 'dim-column-index')
         return True
     if c in ('sdata', 'adata'):
         # whole-array setData(value) / appendData with elements that cannot be converted into the array's element type
@@ -1242,6 +1242,11 @@ def gen_c04_sequence(rnd, steps):
     """a graph, then a sequence of deletes of every kind interleaved with new links, re-creations and reopens"""
     sh = Shadow(rnd)
     build_graph(sh, size=rnd.choice([0.7, 1.0]), reopen_at=rnd.choice([None, 5, 12]))
+    # some links are taken back through the none_t overloads before anything is deleted
+    for cmd, kinds in (('setmeta', 'BRADTMG'), ('setlink', 'S'), ('setext', 'M')):
+        ks = sh.live(kinds)
+        if ks and rnd.random() < 0.5:
+            sh.emit('%s %d none' % (cmd, rnd.choice(ks)))
     for _ in range(steps):
         r = rnd.random()
         live = sh.live('BSPADTMGRX')
